@@ -446,8 +446,8 @@ func C13(c *core.Ctx) {
 			}
 			return 0, 0
 		}}
-		r1 := core.Gate(fn, rejects, neg(ign))
-		r2 := core.Gate(fn, rejects, pos(le31), pos(odd))
+		r1 := core.GateDeep(fn, rejects, neg(ign))
+		r2 := core.GateDeep(fn, rejects, pos(le31), pos(odd))
 		okCrit := r1.OK && r1.PassEdges > 0 && r2.OK && r2.PerLit[0] > 0 && r2.PerLit[1] > 0
 		// each alternative alone rejects
 		if okCrit {
@@ -489,7 +489,7 @@ func C13(c *core.Ctx) {
 				continue
 			}
 			nEdges++
-			fr := core.MustFollow(fn, core.Point{Block: f.E.To, Idx: 0}, isSkipL, nil)
+			fr := core.MustFollowDeep(fn, core.Point{Block: f.E.To, Idx: 0}, isSkipL, nil)
 			if !fr.OK {
 				okSkip = false
 			}
